@@ -59,6 +59,10 @@ def c10_runs(tier):
             runs.append(McRun(r.bin, r.harness, r.params, bound=min(r.bound, 1 if tier == 'quick' else 2), mode='tsan', opts=r.opts,
                               budget=30 if tier == 'quick' else 90, tag='.' + pid))
             runs[-1].source_pid = pid
+    # message passing with plain payloads through the synchronisation primitives (a weakened memory order is invisible
+    # to every functional oracle; only these accesses give ThreadSanitizer something to order)
+    runs.append(McRun('c21_latch', 'latch', dict(c=2, A='1', B='1', aw=0, w=1), bound=1 if tier == 'quick' else 2, mode='tsan', opts={'wakepick_cost': 0}, budget=40, tag='.mp'))
+    runs.append(McRun('c21_latch', 'cevent', dict(w=1, pre=0), bound=1, mode='tsan', budget=40, tag='.mp'))
     return runs
 
 
@@ -70,6 +74,10 @@ def c11_runs(tier):
             runs.append(McRun(r.bin, r.harness, r.params, bound=min(r.bound, 1 if tier == 'quick' else 2), mode='asan', opts=r.opts,
                               budget=30 if tier == 'quick' else 90, tag='.' + pid))
             runs[-1].source_pid = pid
+    # error paths that need two deviations to reach (the caller of pipeline() holding a dequeued item while another stage
+    # throws; an item enqueued after a stage's wait() gave up): decided by the lifetime registry of the payloads (works in the plain build)
+    runs.append(McRun('c27_pipeline', 'pipeline', dict(prop=29, n=1, st='ppp', items=3, thr=2, at=0, again=0), bound=2, mode='plain', budget=120, tag='.C29'))  # plain build: ASan reaches ~35 executions/s here, the lifetime registry decides in every mode
+    runs[-1].source_pid = 'C29'
     for pid in SEQUENTIAL:
         chk = CHECKS.get(pid)
         if not chk:
